@@ -319,13 +319,14 @@ def r08_4(ctx) -> None:
             ctx.fail("R08.4", u, r, "scoped_iter returns something that is neither the scoping nor the neutral context", node=r)
     ctx.check(set(kinds) == {"null", "scoped"}, "R08.4", u, "scoped_iter",
               "scoped_iter has exactly the neutral and the scoping outcome", witness=str(sorted(kinds)))
-    tests = [n for n in cfg.nodes if n.kind == "branch" and isinstance(n.ast, ast.Call) and norm(n.ast.func) == "hasattr"
-             and len(n.ast.args) == 2 and isinstance(n.ast.args[1], ast.Constant) and n.ast.args[1].value == "aclose"]
+    from .common import hasattr_branches
+    asked = {n: e for n, e in hasattr_branches(ctx, u, cfg).items() if not n.tag}
+    tests = list(asked)
     ctx.check(len(tests) == 1, "R08.4", u, "scoped_iter", "the outcome is selected by `hasattr(iterator, 'aclose')`")
     for t in tests:
         # ... asked of the iterator that the block will use (aiter(iterable)), not of the iterable it was made from: an
         # iterable whose __aiter__ hands out a separate cursor object has no aclose itself, its cursor has
-        v = ctx.vals.expr(u, t.ast.args[0], t)
+        v = ctx.vals.expr(u, asked[t].args[0], t)
         ok = bool(v) and all(a[0] == "iter" and a[1] == f"{u.short}:{p}" for a in v)
         ctx.check(ok, "R08.4", u, t, "whether there is something to close is asked of aiter(iterable), the iterator the block uses",
                   node=t, witness=str(sorted(v)))
